@@ -22,6 +22,7 @@ var [p, q] = new Set([4, 5, 6]); out.push("d" + p + q);
 Promise.resolve(1).then(function(v){ out.push("then" + v); return Promise.reject(2) }).catch(function(e){ out.push("catch" + e) });
 (async function(){ out.push("a0"); await null; out.push("a1"); })();
 out.push("sync-end");
+out.push("decl:" + typeof declared0 + "/" + (function(){ try { return typeof lex0 } catch (e) { return e.name } })());
 Promise.resolve().then(function(){ alog(out.join(",")); });
 '''
 
